@@ -3646,6 +3646,8 @@ class __implementations__:
     @implements(numpy.choose)
     def choose(a, choices):
         a, *choices = broadcast_arrays(a, *typecast_arrays(*choices))
+        if a.dtype == bool: # numpy accepts a boolean index array
+            a = _Wrapper(evaluable.BoolToInt, a, shape=a.shape, dtype=int)
         return _Wrapper(evaluable.Choose, a, numpy.stack(choices, -1), shape=a.shape, dtype=choices[0].dtype)
 
     @implements(numpy.linalg.norm)
